@@ -10,6 +10,7 @@ from ..common import calls_named, dotted, kw, loc, norm, stmt_of
 from ..model import AnalysisError, own_nodes
 from .util import (anchor_func, assigned_name, build_cfg, callee_desc, facts, name_aliases, node_of_call,
                    raising_calls, switch_assumptions)
+from ..common import stmt_of  # noqa
 
 OP = "mygrad.tensor_base.Tensor._op"
 LOCKMOD = "mygrad._utils.lock_management"
@@ -364,6 +365,48 @@ def r08_9(run):
            f"a path passes `{norm(cfg.stmt[bad[0][0]])[:40]}` and then `{norm(cfg.stmt[bad[0][1]])[:40]}`: the lock count of each input drops twice")
 
 
+def r08_10(run):
+    """in-place updates: the kernel and the glue ops run with the guard suspended (their target is a private, writeable copy);
+    afterwards the result and its creators are force-locked whenever the guard is on"""
+    fi = anchor_func(run, "mygrad.tensor_base.Tensor._in_place_op")
+    cfg = build_cfg(run, fi, switch_assumptions(fi, track=True, memguard=True))
+    kern = [c for c in calls_named(fi.node, "_op") if kw(c, "out") is not None and cfg.stmt_node_containing(c) is not None
+            and cfg.reachable(cfg.stmt_node_containing(c))]
+    if len(kern) != 1:
+        raise AnalysisError(f"{fi.short}: tracked kernel call not found")
+    k = kern[0]
+    res = assigned_name(stmt_of(k))
+    for c in [k]:
+        p = getattr(c, "_parent", None)
+        ok = False
+        while p is not None and p is not fi.node:
+            if isinstance(p, ast.With) and any(norm(i.context_expr).endswith("mem_guard_off") for i in p.items):
+                ok = True
+            p = getattr(p, "_parent", None)
+        run.ob("R08.10", loc(fi, c), fi.short, "the in-place kernel call runs under mem_guard_off", ok,
+               "the kernel's operands/target are not locked by the kernel call itself (they are force-locked afterwards)" if ok else
+               "the kernel call locks its operands and out= target through the normal path as well: each array is counted twice / the target's base is locked before the write")
+    fl = [c for c in calls_named(fi.node, "force_lock_tensor_and_creators") if c.args and norm(c.args[0]) == res]
+    ns = {cfg.stmt_node_containing(c) for c in fl}
+    ns.discard(None)
+    nk = cfg.stmt_node_containing(k)
+    w = None
+    if not ns:
+        w = [nk, EXIT]
+    else:
+        for succ in cfg.g.successors(nk):
+            if "exc" in cfg.g[nk][succ]["kinds"] and not (cfg.g[nk][succ]["kinds"] - {"exc"}):
+                continue
+            w = w or cfg.all_paths_hit(succ, ns, exits=(EXIT,))
+    run.ob("R08.10", loc(fi, fl[0] if fl else k), fi.short, "with the guard on, the in-place result and its creators are force-locked on every normal path", w is None,
+           f"force_lock_tensor_and_creators({res}) cuts every path kernel->EXIT under MEM_GUARD=True" if w is None else
+           "after an in-place update the mutated array stays writeable inside a live graph", path=cfg.path_text(w) if w else None)
+    cfg0 = build_cfg(run, fi, switch_assumptions(fi, track=True, memguard=False))
+    live = [c for c in fl if cfg0.stmt_node_containing(c) is not None and cfg0.reachable(cfg0.stmt_node_containing(c))]
+    run.ob("R08.10", loc(fi, fl[0] if fl else k), fi.short, "no force-lock when the guard is off", not live,
+           "dead under MEM_GUARD=False" if not live else "arrays get locked although memory guarding is off")
+
+
 def r08_8(run):
     """force_lock bypasses the 'natively read-only arrays are left alone' rule: only an op's own output may be force-locked"""
     fx = facts(run)
@@ -519,6 +562,7 @@ def check(run):
     run.rule("R08.3", "the writeable flag is written only in lock_management or on a private copy", floor=3)
     run.rule("R08.4", "unique_arrs_and_bases yields a base before its view, and every unseen array/base unconditionally", floor=3)
     run.rule("R08.7", "the waiting-view set is wiped only when _array_tracker is empty; tracker entries are removed only by the release function", floor=2)
+    run.rule("R08.10", "_in_place_op: internal op calls run under mem_guard_off; the result is force-locked iff the guard is on", floor=3)
     run.rule("R08.9", "release_writeability_lock_on_op is called directly only on the acquiring function's error path; never twice on a path", floor=2)
     run.rule("R08.8", "force_lock=True only for an op's own output array", floor=1)
     run.rule("R08.5", "lock counter typestate: ++ only in lock, --/del only in release, writeable=True only for the last holder", floor=6)
@@ -536,6 +580,7 @@ def check(run):
     r08_7(run)
     r08_8(run)
     r08_9(run)
+    r08_10(run)
     r08_6(run)
     run.assume("may-raise = explicit `raise` (not `# pragma: no cover`) reachable through resolved repo calls; NumPy/builtin calls "
                "outside the guarded forward call are assumed not to raise")
